@@ -41,6 +41,8 @@ class Placed(M.Monitor):
     def after_job(self, hist, res, step):
         if step.get('op') == 'rejected':
             hist.count('rejected_ref_runs')
+        if step.get('op') == 'cmdfail':
+            hist.count('failed_network_command_runs')
         if step.get('op') == 'placed' and 'cmd' in step:
             hist.count('placed_before_network_command')
         if step.get('op') == 'placed':
@@ -75,9 +77,12 @@ def body_factory(tier, known):
         n = data.draw(st.integers(8, 26), label='nsteps')
         placed_jobs = 0
         stop = False
+        pending_delete = []
         while len(hist.steps) < n + 40 * placed_jobs and not stop and \
                 len(hist.steps) < 400:
-            for step in draw_steps(data, hist, None):
+            drawn = [pending_delete.pop()] if pending_delete else \
+                draw_steps(data, hist, None)
+            for step in drawn:
                 if step['op'] in ('pr_event', 'commit_event', 'admin') and \
                         placed_jobs < max_jobs:
                     info = hist.dry_run(step)
@@ -140,6 +145,12 @@ def body_factory(tier, known):
                                     continue
                                 hist.apply({'op': 'placed', 'job': step,
                                             'cmd': ci, 'action': act})
+                        # one command that talks to the remote or to the
+                        # mirror cache fails (transient error): Bert-E must
+                        # not go on with a stale view of the repository
+                        for ci in net:
+                            hist.apply({'op': 'cmdfail', 'job': step,
+                                        'cmd': ci})
                         # the remote refuses one ref of the job (branch or
                         # tag protection): nothing foreign may be lost either
                         refs_ = sorted(set(info['moved']))
@@ -152,12 +163,27 @@ def body_factory(tier, known):
                         for r in refs_:
                             hist.apply({'op': 'rejected', 'job': step,
                                         'ref': r})
-                hist.apply(step)
+                res_ = hist.apply(step)
                 if step['op'] == 'admin':
                     hist.apply({'op': 'drain'})
                 if any(sig_key(s) not in known for _, s in hist.violations):
                     stop = True
                     break
+                # a destination that Bert-E has just moved is deleted next
+                # (the mirror cache is one job behind at that moment)
+                moved_ = sorted(set(
+                    r[len('refs/heads/'):] for rr in (res_ or [])
+                    for tx in rr.txs for a, _, new_, r in tx
+                    if a == 'berte' and r.startswith('refs/heads/') and
+                    new_ != '0' * 40 and
+                    r[len('refs/heads/'):].startswith(
+                        ('development/', 'stabilization/', 'hotfix/'))))
+                if moved_ and not pending_delete and data.draw(
+                        st.integers(0, 1), label='delete_moved'):
+                    pending_delete.append({
+                        'op': 'admin', 'kind': 'delete_branch',
+                        'args': {'branch': moved_[data.draw(st.integers(
+                            0, len(moved_) - 1), label='dm')]}})
             if len(hist.steps) >= n and placed_jobs >= max_jobs:
                 break
     return body
